@@ -229,9 +229,12 @@ def run_case(case, part):
             return {'status': 301, 'reason': 'Moved', 'headers': [('Location', 'http://b.test/hosted/robots-of-a.txt')], 'body': b''}
         if mode == 'redirect':
             # the redirect itself carries a body (sometimes much longer than the final file)
-            filler = [b'', b'<html>moved</html>', b'<html><body>' + b'Allow: /\nmoved to /robots-real.txt ' * 120 + b'</body></html>']
+            # (bytes of the redirect's body that survive in the file read as rules would change what is allowed: an
+            #  allow-everything tail, or a block-everything tail far longer than any generated robots.txt)
+            filler = [b'', b'<html>moved</html>', b'<html><body>' + b'Allow: /\nmoved to /robots-real.txt ' * 120 + b'</body></html>',
+                      b'<html><body>moved' + b'\nUser-agent: *\nDisallow: /\n' * 1500 + b'</body></html>']
             return {'status': 301, 'reason': 'Moved', 'headers': [('Location', '/robots-real.txt')],
-                    'body': filler[case['robots_seed'] % 3]}
+                    'body': filler[case['robots_seed'] % 4]}
         # (sent as Latin-1: a comment with an accented letter is then not valid UTF-8, which must not matter)
         return {'status': 200, 'headers': [('Content-Type', 'text/plain')], 'body': text.encode('latin-1')}
     handlers = {s.host: sitegen.make_handler(s, robots=robots_handler) for s in sites}
